@@ -44,11 +44,14 @@ def main():
     if not a.skip_confirm:
         rc1, out1 = sh('timeout 120 /venv/bin/python %s/demo.py' % seed, cwd=wt, env=env)
         rc_t, out_t = sh('timeout 900 /venv/bin/python -m pytest -q -p no:cacheprovider 2>&1 | tail -1', cwd=wt, env=env)
-        sh('git stash', cwd=wt)
+        # (not `git stash`: the stash is shared by all worktrees of a repository)
+        tmp_patch = os.path.join(seed, '_eval_patch.diff')
+        sh('git diff > %s' % tmp_patch, cwd=wt)
+        sh('git apply -R %s' % tmp_patch, cwd=wt)
         try:
             rc0, out0 = sh('timeout 120 /venv/bin/python %s/demo.py' % seed, cwd=wt, env=env)
         finally:
-            sh('git stash pop', cwd=wt)
+            sh('git apply %s' % tmp_patch, cwd=wt)
         meta['confirm'] = dict(demo_with_change_exit=rc1, demo_without_change_exit=rc0, tests_with_change=out_t.strip()[-80:],
                                demo_with_change_tail=out1.strip()[-400:])
         ok = (rc1 == 1 and rc0 == 0 and '286 passed' in out_t)
